@@ -33,6 +33,10 @@ Decides (from the syntax trees of ci/ci/*.py, nothing is run):
       every write) whenever CI's entry is SUCCESS.  The entry alone describes the batch that was current when PR._heal last posted; _heal posts
       before it may call _start_build (checked: reset of build_state in _start_build, no later store of the entry), and try_to_merge follows in the
       same pass.  Dually, every `self.batch = <new batch>` outside _update_batch is preceded on every path by a reset of build_state.
+Refactor-robustness: is_mergeable / is_up_to_date and other zero-argument predicates are read as ONE and/or/not condition whatever their spelling (guard
+clauses, nested ifs, locals, helper predicates: engines/c30facts.to_bool); conjuncts about review_state, the number of statuses and a single status are
+decided over their finite domains; try_to_merge and update_from_gh_json are analysed with private helpers inlined; the merge gate may sit in the same
+condition as the merge call (short-circuit order) or test a local alias; the merge result may be held in a local.
 Does not decide: the behaviour of GitHub; that the statuses GitHub reports belong to the head (CI asks for `commits(last: 1)`).
 """
 from __future__ import annotations
